@@ -59,7 +59,9 @@ theorem C10_blocks_wellformed (cfg : Cfg) (prog) (hc : cfg.ok = true) (sts : Lis
 (1) `min ≤ buff_num_ ≤ max` and `buff_num_` counts exactly the buffers in existence;
 (2) a producer is blocked only when there is no current buffer, and if moreover no free buffer
 is available then ALL buffers are queued or in flight at the back end — at least one;
-(3) in that situation, as long as the back-end thread runs, the back end alone (its next
+(3) in that situation, for a producer other than the sink callback itself (a nested append that has
+to wait for a buffer waits for its own thread: see `C10_nested_backpressure_self_deadlock`), as long
+as the back-end thread runs, the back end alone (its next
 `beNext` steps, no help from anyone) reaches a state with a free buffer in at most `mu s`
 steps, where the blocked producer's `pWake` is enabled. -/
 theorem C10_buffers_bounded (cfg : Cfg) (prog) (hc : cfg.ok = true) (sts : List Step) (s : State)
@@ -68,7 +70,7 @@ theorem C10_buffers_bounded (cfg : Cfg) (prog) (hc : cfg.ok = true) (sts : List 
       s.buffNum = s.free + currCount s.curr + s.full.length + inflight s.bpc) ∧
     (∀ o, s.owner = some o → o.blocked = true →
       s.curr = none ∧ (s.free = 0 → s.full.length + inflight s.bpc = s.buffNum ∧ 1 ≤ s.buffNum)) ∧
-    (∀ o, s.owner = some o → o.blocked = true → s.bpc ≠ .exited →
+    (∀ o, s.owner = some o → o.tid ≠ sinkTid → o.blocked = true → s.bpc ≠ .exited →
       ∃ bs s', (∀ st ∈ bs, st.isBackend = true) ∧ bs.length ≤ mu s ∧ exec s bs = some s' ∧
         0 < s'.free ∧ valid s' .pWake = true) := by
   have h := exec_inv prog sts _ s (init_inv cfg prog hc) he
@@ -83,8 +85,8 @@ theorem C10_buffers_bounded (cfg : Cfg) (prog) (hc : cfg.ok = true) (sts : List 
     rw [hcfg] at hlo
     simp only [hcn, hf, currCount] at this
     omega
-  · intro o ho hb hne
-    obtain ⟨bs, s', hbs, hlen, hex, hfree, how⟩ := backpressure_released prog (mu s + 1) s h o ho hb hne (by omega)
+  · intro o ho hns hb hne
+    obtain ⟨bs, s', hbs, hlen, hex, hfree, how⟩ := backpressure_released prog (mu s + 1) s h o ho hns hb hne (by omega)
     refine ⟨bs, s', hbs, by omega, hex, hfree, ?_⟩
     simp [valid, how, ho, hb, hfree]
 
@@ -217,6 +219,7 @@ was late, the appends were acquired in the order `ord` and the sink received exa
 With `C10_observable_accepted` (soundness): `blockRule` is EXACTLY the set of observables of the model. -/
 theorem C10_complete (cfg : Cfg) (hc : cfg.ok = true) (ord : List (Nat × List UInt8)) (blocks : List (List UInt8))
     (prog : Nat → List (List UInt8)) (hprog : ∀ p, prog p = (ord.filter (fun a => a.1 == p)).map (·.2))
+    (h7 : ∀ a ∈ ord, a.1 ≠ sinkTid)
     (hr : blockRule cfg.size (ord.map (·.2)) blocks = true) :
     ∃ sts s, exec (init cfg prog) sts = some s ∧ s.joined = true ∧ s.late = false ∧
       s.delivered = blocks ∧ s.acq = ord := by
@@ -225,6 +228,10 @@ theorem C10_complete (cfg : Cfg) (hc : cfg.ok = true) (ord : List (Nat × List U
   simp only [List.length_map] at hg1
   obtain ⟨s, ⟨sts, hex⟩, hj, hl, hd, ha⟩ := realize cfg hok.2.1 hok.1
     ((ord.zip gs).map (fun x => (x.1.1, x.1.2, x.2))) prog [] [] []
+    (by intro x hx
+        simp only [List.mem_map] at hx
+        obtain ⟨y, hy, rfl⟩ := hx
+        exact h7 y.1 (List.of_mem_zip hy).1)
     (fun p => by rw [hprog p, progOf_zip ord gs hg1 p]) (by simp only [List.length_nil]; omega)
   have hinit : Q cfg prog (optOf []) none [] [] = init cfg prog := by simp [Q, init, optOf, currCount]
   rw [hinit] at hex
@@ -232,7 +239,7 @@ theorem C10_complete (cfg : Cfg) (hc : cfg.ok = true) (ord : List (Nat × List U
   · rw [hd, hg2]
     simp only [List.nil_append, List.map_map]
     congr 1
-    clear hg2 hr hprog hex hd ha
+    clear hg2 hr hprog hex hd ha h7
     induction ord generalizing gs with
     | nil => simp
     | cons a rest ih => cases gs with
@@ -240,13 +247,80 @@ theorem C10_complete (cfg : Cfg) (hc : cfg.ok = true) (ord : List (Nat × List U
       | cons g gs => simp at hg1; simp [ih gs hg1]
   · rw [ha]
     simp only [List.nil_append, List.map_map]
-    clear hg2 hr hprog hex hd ha
+    clear hg2 hr hprog hex hd ha h7
     induction ord generalizing gs with
     | nil => simp
     | cons a rest ih => cases gs with
       | nil => simp at hg1
       | cons g gs => simp at hg1; simp [ih gs hg1]
 
+
+/-! ### re-entrant use: the sink callback appends to the same pipe -/
+
+/-- locks the back-end thread holds BETWEEN its steps (inside a step see `held`): only the producer
+mutex, and only while a nested append made by the sink callback is in progress -/
+def backendHolds (s : State) : List Lock :=
+  match s.owner with
+  | some o => if o.tid = sinkTid then [.currM] else []
+  | none => []
+
+/-- **the sink may append**: (1) the back-end thread owns `curr_buffer_mutex_` between steps only inside
+a nested append made from the running callback — never `full_buffers_mutex_`; (2) when the callback is
+entered (`bPop` delivering a block) the back-end thread holds no mutex at all, in timed, quit and
+buffer-full rounds alike; (3) hence a nested append is enabled exactly like any producer's: as soon as
+the producer mutex is free — the back end cannot block on itself.  (The seeded variant that keeps the
+mutex of the timed hand-over until the end of the round falsifies (2); the re-entrant harness cases
+observe it as a `timeout`.) -/
+theorem C10_sink_may_append (cfg : Cfg) (prog) (hc : cfg.ok = true) (sts : List Step) (s : State)
+    (he : exec (init cfg prog) sts = some s) :
+    (backendHolds s ≠ [] → backendHolds s = [.currM] ∧ s.bpc.isInCb = true) ∧
+    (valid s .bPop = true → (step s .bPop).bpc.isInCb = true → backendHolds (step s .bPop) = []) ∧
+    (s.bpc.isInCb = true → s.owner = none → (s.prog sinkTid).isEmpty = false → s.joined = false →
+      valid s (.acquire sinkTid) = true) := by
+  have h := exec_inv prog sts _ s (init_inv cfg prog hc) he
+  refine ⟨?_, ?_, ?_⟩
+  · intro hne
+    unfold backendHolds at hne ⊢
+    cases ho : s.owner with
+    | none => simp [ho] at hne
+    | some o =>
+      by_cases ht : o.tid = sinkTid
+      · exact ⟨by simp [ht], h.shape.sinkOwner o ho ht⟩
+      · simp [ho, ht] at hne
+  · intro hv _
+    have hown : (step s .bPop).owner = s.owner := backend_owner s .bPop rfl
+    unfold backendHolds
+    rw [hown]
+    cases ho : s.owner with
+    | none => rfl
+    | some o =>
+      by_cases ht : o.tid = sinkTid
+      · have hin := h.shape.sinkOwner o ho ht
+        simp only [valid] at hv
+        cases hpc : s.bpc <;> simp [hpc, BPc.isInCb] at hin hv
+      · simp [ht]
+  · intro hin ho hp hj
+    simp [valid, ho, hp, hj, hin]
+
+/-- nested back-pressure: a nested append that needs a buffer when none is free and the limit is
+reached waits for the only thread that recycles buffers — itself.  One 2-byte buffer (min = max = 1),
+the callback for the first block appends 3 bytes: the back end is stuck for ever (only `cleanupSignal`
+remains enabled, `join` never).  This is what the CURRENT code does by design; it is an assumption of
+re-entrant use ("a sink appends at most what fits without waiting"), not a defect. -/
+theorem C10_nested_backpressure_self_deadlock :
+    (exec (init ⟨2, 1, 1, 1⟩ (fun p => if p = 0 then [[1, 2]] else if p = sinkTid then [[7, 8, 9]] else []))
+      [.acquire 0, .pTake, .pWrite, .release, .bTop, .bGrab, .bPop, .acquire sinkTid, .pTake]).map
+      (fun s => (s.owner.map (fun o => (o.tid, o.blocked)), s.free, s.bpc,
+        [Step.pTake, .pWake, .pWrite, .release, .bTop, .bWake true, .bGrab, .bPop, .bCbRet, .bPushFree, .join,
+         .acquire 0, .acquire sinkTid].all (fun st => !valid s st))) =
+      some (some (sinkTid, true), 0, .inCb false, true) := by decide
+
+/-- a nested append that fits is an ordinary append of the pseudo-producer `sinkTid`: delivered by a later flush -/
+example : (exec (init ⟨4, 1, 2, 1⟩ (fun p => if p = 0 then [[1, 2, 3, 4]] else if p = sinkTid then [[9]] else []))
+      [.acquire 0, .pTake, .pWrite, .release, .bTop, .bGrab, .bPop, .acquire sinkTid, .pTake, .pWrite, .release,
+       .bCbRet, .bPop, .bTop, .bWake true, .bGrab, .bPop, .bCbRet, .bPushFree, .bPop,
+       .cleanupSignal, .bTop, .bWake false, .bGrab, .bPop, .join]).map
+      (fun s => (s.delivered, s.acq.map (·.1), s.joined, s.late)) = some ([[1, 2, 3, 4], [9]], [0, sinkTid], true, false) := by decide
 
 /-! ### several lifecycles on one object -/
 
